@@ -142,8 +142,11 @@ class _GuardedUfunc:
         if not isinstance(arr, A):
             self._guard(".reduceat", (arr, indices) + a, k)
             return self._uf.reduceat(arr, indices, *a, **k)
+        out_dtype = k.pop("dtype", None)
         if self._name != "add" or a or k or arr.ndim != 1:
             raise Unsupported(f"np.{self._name}.reduceat on symbolic data (no model)")
+        if out_dtype is not None:
+            arr = arr.astype(out_dtype)
         idx = indices.cells if isinstance(indices, A) else [int(i) for i in real_np.asarray(indices).ravel()]
         if any(is_sym(i) for i in idx):
             raise Unsupported("np.add.reduceat at symbolic offsets")
